@@ -7,6 +7,7 @@ from typing import Any, Callable, Dict, List, Optional, Tuple, Union, Type
 import regex
 
 from calendar import monthrange
+from copy import copy
 from .types import Artifact, Interval, RegexMatch, Time
 
 logger = logging.getLogger(__name__)
@@ -104,6 +105,10 @@ def rule(*patterns: Union[str, Predicate]) -> Callable[[Any], ProductionRule]:
             if res is not None and not _is_valid_calendar(res):
                 # e.g. 31.04. or 29.02.2019: matched but failed
                 res = None
+            if res is not None and any(res is a for a in args):
+                # the production handed back one of its arguments: do not
+                # widen the span of an object other partial parses share
+                res = copy(res)
             if res is not None:
                 # upon a successful production, update the span
                 # information by expanding it to that of all args
